@@ -119,6 +119,20 @@ var checks = map[string]*check{
 		rule:        "each generated operation instance is executed under every aliasing partition of (z,x,y) (5) / (z,x,y,u) (13) and three receiver histories (fresh, previously 400-800 digits, previously special without buffer); all variants are validated against the buffer-free specification, so they agree with each other",
 		assumptions: commonAssumptions,
 	},
+	"C14": {
+		id: "C14", models: []model{}, trace: "Trace_Core", batch: 4,
+		gen:         func(g *gen.G, thor bool) []gen.Program { return gen.Conv(g, n(thor, 1500, 40000)) },
+		rule:        "Int64/Uint64/Int/Rat/IsInt/MinPrec of Decimals around 2^63, 2^64, 10^19, 10^20, 10^38 with and without fractional parts (short, far 0..01, 9..9), arbitrary and special values; SetInt64/SetUint64/NewDecimal on all edge values and random ones; SetInt of integers up to 5000 digits incl. delicate digits after the precision and trailing zero words; SetRat with terminating, integer and non-terminating quotients and quotient ties; receiver precision 0 and > 0, six modes",
+		assumptions: commonAssumptions,
+		req:         []string{"Int64:limit", "Uint64:limit", "Int64:acc0", "Int64:acc-1", "Int64:acc1", "Uint64:acc1", "SetInt:prec0", "SetInt:precn", "SetRat:integer", "SetRat:fraction", "IsInt:TRUE", "IsInt:FALSE", "Rat:finite", "Rat:inf"},
+	},
+	"C15": {
+		id: "C15", models: []model{}, trace: "Trace_Core", batch: 4,
+		gen:         func(g *gen.G, thor bool) []gen.Program { return gen.Float(g, n(thor, 1500, 40000)) },
+		rule:        "SetFloat64 of bit patterns (all exponent fields, mantissas 0/1/2^52-1/random, subnormals, infinities, NaNs) with receiver precision 0, too small, and large enough for the full decimal expansion; SetFloat of big.Float values of 1..2000 bits; Float64/Float32 of Decimals constructed from the specification's side: exactly representable values, exact midpoints between adjacent floats, odd multiples of ulp/4096 (the double-rounding trigger), each also nudged just above/below, values far out of range, specials; Float into big.Float of precision 1..500",
+		assumptions: append(append([]string{}, commonAssumptions...), "the harness decomposes float64/float32/*big.Float exactly (math.Float64bits, MantExp)", "SetFloat/Float error bound fixed at 64 ulp (the property says 'a few dozen')"),
+		req:         []string{"SetFloat64:fin", "SetFloat64:nan", "SetFloat64:inf", "SetFloat64:zero", "SetFloat64:exact", "SetFloat64:rounded", "SetFloat:fin", "SetFloat:exact", "SetFloat:rounded", "Float64:fin", "Float64:inf", "Float64:zero", "Float64:subnormal", "Float32:fin", "Float:finite"},
+	},
 	"C16": {
 		id: "C16", models: []model{}, trace: "Trace_Core", batch: 4,
 		gen:         func(g *gen.G, thor bool) []gen.Program { return gen.Cmp(g, n(thor, 400, 10000)) },
